@@ -27,14 +27,18 @@ func GenDisableChain(r *hx.Rng, stageCmd string) (*Program, map[string]int) {
 	fl := &Stage{Name: "FLAGS", MainOuts: map[string]*SExp{}, ChunkOutsB: map[string]*SExp{}}
 	fl.Ins = []Field{{"i0", TInt}}
 	var offs, skips []string
-	anyOff := false
+	// in a third of the programs exactly one level is switched off at run
+	// time: nothing inside it may run
+	offLevel := -1
+	if r.Intn(3) == 0 {
+		offLevel = r.Intn(depth)
+		stats["chain_one_level_disabled"]++
+	}
 	for k := 0; k < depth; k++ {
 		n := fmt.Sprintf("off%d", k)
 		offs = append(offs, n)
 		fl.Outs = append(fl.Outs, Field{n, TBool})
-		v := r.Intn(6) == 0 && !anyOff // mostly enabled
-		anyOff = anyOff || v
-		fl.MainOuts[n] = &SExp{K: "lit", Lit: hx.JBool(v)}
+		fl.MainOuts[n] = &SExp{K: "lit", Lit: hx.JBool(k == offLevel)}
 	}
 	ownFlag := make([]bool, nsib)
 	for j := 0; j < nsib; j++ {
@@ -117,4 +121,77 @@ func GenDisableChain(r *hx.Rng, stageCmd string) (*Program, map[string]int) {
 
 func boolOf(e *SExp) bool {
 	return e != nil && e.Lit.JSON() == "true"
+}
+
+// GenTwinBranches builds a program of the family "one pipeline, several
+// instances": a sub-pipeline (optionally wrapped in a second level) is called
+// N times under different aliases, so that the stages inside the instances
+// have the same call id and differ only in their fully qualified names, and
+// consumers bind the results of several instances at once.  Whatever
+// identifies a producer by less than its full path confuses the instances.
+func GenTwinBranches(r *hx.Rng, stageCmd string) (*Program, map[string]int) {
+	stats := map[string]int{}
+	n := 2 + r.Intn(3)
+	wrap := r.Intn(3) == 0
+	stats[fmt.Sprintf("twins_instances_%d", n)]++
+	p := &Program{StageCmd: stageCmd}
+	work := &Stage{Name: "WORK", MainOuts: map[string]*SExp{}, ChunkOutsB: map[string]*SExp{}}
+	work.Ins = []Field{{"i0", TInt}}
+	work.Outs = []Field{{"o0", TInt}}
+	work.MainOuts["o0"] = &SExp{K: "arg", Name: "i0"}
+	sum := &Stage{Name: "SUM", MainOuts: map[string]*SExp{}, ChunkOutsB: map[string]*SExp{}}
+	sum.Ins = []Field{{"xs", TArr(TInt)}}
+	sum.Outs = []Field{{"o0", TArr(TInt)}}
+	sum.MainOuts["o0"] = &SExp{K: "arg", Name: "xs"}
+	p.Stages = []*Stage{work, sum}
+	br := &Pipeline{Name: "BRANCH", Ins: []Field{{"p0", TInt}}, Outs: []Field{{"r0", TInt}}}
+	br.Calls = []*Call{{ID: "STEP", Callee: "WORK", Binds: []Bind{{Param: "p0", E: nil}}}}
+	br.Calls[0].Binds = []Bind{{Param: "i0", E: &Exp{K: "ref", Src: "self", Out: "p0"}}}
+	br.Ret = []Bind{{Param: "r0", E: &Exp{K: "ref", Src: "STEP", Out: "o0"}}}
+	p.Pipelines = append(p.Pipelines, br)
+	inst := "BRANCH"
+	if wrap {
+		stats["twins_wrapped"]++
+		w := &Pipeline{Name: "WRAP", Ins: []Field{{"p0", TInt}}, Outs: []Field{{"r0", TInt}}}
+		w.Calls = []*Call{{ID: "INNER", Callee: "BRANCH", Binds: []Bind{{Param: "p0", E: &Exp{K: "ref", Src: "self", Out: "p0"}}}}}
+		w.Ret = []Bind{{Param: "r0", E: &Exp{K: "ref", Src: "INNER", Out: "r0"}}}
+		p.Pipelines = append(p.Pipelines, w)
+		inst = "WRAP"
+	}
+	top := &Pipeline{Name: "TOPT", Ins: []Field{{"seed", TInt}}}
+	var ids []string
+	for k := 0; k < n; k++ {
+		id := fmt.Sprintf("B%d", k)
+		ids = append(ids, id)
+		var e *Exp = Lit(hx.JInt(int64(10 * (k + 1))))
+		if k == 0 {
+			e = &Exp{K: "ref", Src: "self", Out: "seed"}
+		}
+		top.Calls = append(top.Calls, &Call{ID: id, Callee: inst, Binds: []Bind{{Param: "p0", E: e}}})
+	}
+	ncons := 2 + r.Intn(5)
+	for j := 0; j < ncons; j++ {
+		id := fmt.Sprintf("J%d", j)
+		e := &Exp{K: "arr"}
+		// every consumer binds at least two different instances
+		a := r.Intn(n)
+		b := (a + 1 + r.Intn(n-1)) % n
+		picks := []int{a, b}
+		for k := 0; k < n; k++ {
+			if k != a && k != b && r.Intn(3) == 0 {
+				picks = append(picks, k)
+			}
+		}
+		for _, k := range picks {
+			e.Items = append(e.Items, &Exp{K: "ref", Src: ids[k], Out: "r0"})
+		}
+		top.Calls = append(top.Calls, &Call{ID: id, Callee: "SUM", Binds: []Bind{{Param: "xs", E: e}}})
+		on := fmt.Sprintf("r%d", j)
+		top.Outs = append(top.Outs, Field{on, TArr(TInt)})
+		top.Ret = append(top.Ret, Bind{Param: on, E: &Exp{K: "ref", Src: id, Out: "o0"}})
+		stats["twins_consumer"]++
+	}
+	p.Pipelines = append(p.Pipelines, top)
+	p.Top = &Call{ID: "TOPT", Callee: "TOPT", Binds: []Bind{{Param: "seed", E: Lit(hx.JInt(int64(r.Intn(1000))))}}}
+	return p, stats
 }
